@@ -44,7 +44,11 @@ def _builtin_call(n, env, rec, user_call=None):
     raise Undecidable('call ' + ast.unparse(n.func))
 
 
-def execute(fn_node, env, sub=None, call=None, attr=None, body=None):
+class NeedChoice(Undecidable):
+    """A test could not be evaluated and no decision for it was supplied."""
+
+
+def execute(fn_node, env, sub=None, call=None, attr=None, body=None, on_store=None, on_expr=None, choices=None):
     """Trace [(stmt, env snapshot)] of the statements executed; the last one is the Return / Raise reached (if any)."""
     env = dict(env)
     trace = []
@@ -78,7 +82,17 @@ def execute(fn_node, env, sub=None, call=None, attr=None, body=None):
                 raise Undecidable('too many steps')
             trace.append((st, dict(env)))
             if isinstance(st, ast.If):
-                run(st.body if value(st.test) else st.orelse)
+                try:
+                    c = value(st.test)
+                except NeedChoice:
+                    raise
+                except Undecidable:
+                    if choices is None:
+                        raise
+                    if not choices:
+                        raise NeedChoice(ast.unparse(st.test))
+                    c = choices.pop(0)           # a test on data the interpreter does not model: both outcomes are explored by the caller
+                run(st.body if c else st.orelse)
             elif isinstance(st, ast.For):
                 it = value(st.iter)
                 broke = False
@@ -112,6 +126,8 @@ def execute(fn_node, env, sub=None, call=None, attr=None, body=None):
                 except Undecidable:
                     ok = False
                 for t in st.targets:
+                    if isinstance(t, (ast.Attribute, ast.Subscript)) and on_store is not None:
+                        on_store(t, v if ok else Undecidable, env, value)      # rule-specific heap (attribute / element stores)
                     if isinstance(t, (ast.Name, ast.Tuple, ast.List)):
                         if ok:
                             try:
@@ -128,6 +144,8 @@ def execute(fn_node, env, sub=None, call=None, attr=None, body=None):
                     except Undecidable:
                         env.pop(st.target.id, None)
             elif isinstance(st, (ast.Return, ast.Raise)):
+                if on_expr is not None and isinstance(st, ast.Return) and st.value is not None:
+                    on_expr(st.value, env, value)
                 raise _Return()
             elif isinstance(st, ast.Break):
                 raise _Break()
@@ -135,7 +153,10 @@ def execute(fn_node, env, sub=None, call=None, attr=None, body=None):
                 raise _Continue()
             elif isinstance(st, ast.Assert):
                 pass
-            elif isinstance(st, (ast.Expr, ast.Pass, ast.FunctionDef, ast.Import, ast.ImportFrom)):
+            elif isinstance(st, ast.Expr):
+                if on_expr is not None:
+                    on_expr(st.value, env, value)
+            elif isinstance(st, (ast.Pass, ast.FunctionDef, ast.Import, ast.ImportFrom)):
                 pass
             elif isinstance(st, ast.With):
                 run(st.body)
@@ -148,3 +169,20 @@ def execute(fn_node, env, sub=None, call=None, attr=None, body=None):
     except (_Break, _Continue):
         pass
     return trace
+
+
+def all_paths(run_once, limit=16):
+    """Call run_once(choices) for every combination of outcomes of the tests the interpreter cannot evaluate (breadth first,
+    at most `limit` paths).  run_once must call execute(..., choices=list(choices)); yields (choices, result)."""
+    todo = [[]]
+    n = 0
+    while todo:
+        ch = todo.pop(0)
+        n += 1
+        if n > limit:
+            raise Undecidable('too many undecidable tests')
+        try:
+            yield ch, run_once(list(ch))
+        except NeedChoice:
+            todo.append(ch + [True])
+            todo.append(ch + [False])
